@@ -11,10 +11,10 @@ from ..simkit import hdr, sd
 
 PID = "C01"
 RULE = (
-    "cases = datagrams of 0..8 generated SOME/IP messages (boundary-biased 16-bit ids, every message type and "
+    "cases = datagrams of 0..8 generated SOME/IP messages (boundary-biased 16-bit ids, one in eight a magic-cookie or SD-notification header, exact or with one field redrawn; every message type and "
     "return code, payload lengths boundary-biased up to 70000), an optional suffix (random bytes, a second message, "
     "a truncated header) and an optional corruption of one header field of one message (length incl. 0..7 and "
-    "overshoot, protocol version, message type, return code); non-trivial = payload >= 65528 bytes, or non-empty "
+    "overshoot, protocol version, message type, return code), the block of messages optionally repeated 30/300/1100/4094 times within the 65507 bytes of one UDP datagram; non-trivial = payload >= 65528 bytes, or non-empty "
     "suffix, or >= 2 messages, or a corrupted field; additionally datagrams of 1..6 SD-endpoint messages (well-formed, undecodable SD payload, foreign service, wrong message type) delivered to a discovery endpoint; distinct = distinct case JSON"
 )
 ASSUMPTIONS = [
@@ -43,6 +43,20 @@ u8 = st.one_of(st.sampled_from([0, 1, 0x7F, 0x80, 0xFE, 0xFF]), st.integers(0, 0
 @st.composite
 def message(draw, big=True):
     plen = draw(st.one_of(st.sampled_from(PLENS if big else PLENS[:9]), st.integers(0, 2048)))
+    if draw(st.integers(0, 7)) == 0:
+        # a header the specification gives a meaning of its own (magic cookies, SD notification), exact or with one field redrawn
+        w = dict(zip(("svc", "meth", "cli", "ses", "iv", "mt", "rc"), draw(st.sampled_from(wire.WELL_KNOWN_HEADERS))))
+        w.update(plen=draw(st.sampled_from([0, 0, 12, plen])), pseed=draw(st.integers(0, 9)))
+        k = draw(st.sampled_from([None, None, "svc", "meth", "cli", "ses", "iv", "mt", "rc"]))
+        if k in ("svc", "meth", "cli", "ses"):
+            w[k] = draw(u16)
+        elif k == "iv":
+            w[k] = draw(u8)
+        elif k == "mt":
+            w[k] = draw(st.sampled_from(wire.MESSAGE_TYPES))
+        elif k == "rc":
+            w[k] = draw(st.sampled_from(wire.RETURN_CODES))
+        return w
     return dict(
         svc=draw(u16), meth=draw(u16), cli=draw(u16), ses=draw(u16), iv=draw(u8),
         mt=draw(st.sampled_from(wire.MESSAGE_TYPES)), rc=draw(st.sampled_from(wire.RETURN_CODES)),
@@ -73,7 +87,9 @@ def _case(draw):
         else:
             val = draw(st.integers(0, 255))
         corrupt = {"idx": idx, "field": field, "value": val}
-    return {"msgs": msgs, "suffix": suffix, "corrupt": corrupt}
+    # "any number of messages per datagram": the whole block repeated, up to what one UDP datagram can carry (65507 bytes)
+    rep = draw(st.sampled_from([1] * 12 + [30, 300, 1100, 4094]))
+    return {"msgs": msgs, "suffix": suffix, "corrupt": corrupt, "rep": rep}
 
 
 _sdmsg = st.one_of(st.just({"kind": "ok"}), st.just({"kind": "ok"}), st.just({"kind": "badsd"}), st.just({"kind": "foreign"}), st.just({"kind": "request"}),
@@ -86,6 +102,9 @@ def strategy(tier):
 
 def fixed_cases(tier):
     out = []
+    small = dict(svc=0x1234, meth=0x8001, cli=1, ses=1, iv=1, mt=wire.MESSAGE_TYPES[0], rc=wire.RETURN_CODES[0], plen=0, pseed=1)
+    for rep in (2, 100, 1000, 2000, 4094):   # a full UDP datagram of minimal messages
+        out.append({"msgs": [small, dict(small, plen=4, ses=2)], "suffix": {"kind": "none"}, "corrupt": None, "rep": rep})
     for mt in wire.MESSAGE_TYPES:
         for rc in wire.RETURN_CODES:
             for plen in (0, 9, 65528):
@@ -270,6 +289,11 @@ def run_case(case):
         buf = wrest
 
     # (4) delivery of concatenated messages, one by one, in order
+    rep = case.get("rep", 1)
+    if rep > 1 and encs:
+        block = b"".join(encs)
+        rep = max(1, min(rep, (65507 - len(sfx)) // len(block)))
+        data = block * rep + sfx
     expect = wire.split_datagram(data)
     for mc in (False, True):
         p = _Rec()
@@ -283,6 +307,6 @@ def run_case(case):
 
     big = any(m["plen"] >= 65528 for m in msgs)
     nontrivial = big or bool(sfx) or len(msgs) >= 2 or bool(corrupt)
-    labels = [f"msgs={min(len(msgs), 3)}{'+' if len(msgs) > 3 else ''}", f"suffix={sk}",
+    labels = [f"msgs={min(len(msgs), 3)}{'+' if len(msgs) > 3 else ''}", f"suffix={sk}", f"per-datagram={'>1000' if len(expect) > 1000 else ('>100' if len(expect) > 100 else '<=100')}",
               f"corrupt={corrupt['field'] if corrupt else 'no'}", "big" if big else "small"]
     return ok(nontrivial, labels)
